@@ -3,6 +3,9 @@
    MODE 0 (DEC): arbitrary input decoded from format FMT: the result is NULL, or a data object of plausible size; every heap access is checked against the object table.
    MODE 1 (RT):  none -> FMT -> none round trip returns the original bytes, whatever the fragmentation of the input and of the intermediate encoded text. */
 #define IR_CHECK_OBJECTS 1
+#if MODE == 4
+#define IR_BYTEWIN 24      /* the input text is mirrored byte by byte: its concrete characters stay constants next to a symbolic one */
+#endif
 #include "hpre.h"
 #include "model.c"
 #define IR_MAX_OBJ 40
@@ -32,7 +35,7 @@ u64 _Block_copy(u64 b) { return b; } void _Block_release(u64 b) { }
 void _dispatch_temporary_resource_shortage(void) { ASSERT(0, "resource shortage"); }
 void dispatch_async_f(u64 q, u64 c, u64 f) { ASSERT(0, "unexpected async"); }
 void _dispatch_object_finalize(u64 o) { } void _dispatch_introspection_queue_dispose(u64 o) { }
-#if MODE == 2 || MODE == 3
+#if MODE == 2 || MODE == 3 || MODE == 4
 #define MAXOUT 16
 #else
 #define MAXOUT (N + 2)
@@ -45,9 +48,17 @@ _Bool _dispatch_data_apply_client_callout(u64 ctxt, u64 region, u64 offset, u64 
     out_n = offset + size; return 1; }
   return IR_CALL_APPLIER5(f, ctxt, region, offset, buffer, size); }
 static void observe(u64 dd) { out_n = 0; out_ok = 1; for (int i = 0; i < MAXOUT; i++) out[i] = 0; dispatch_data_apply_f(dd, 0, 0x99); }
+static int ref_val(u8 c);
 static u64 mkinput(void) {
   u64 buf = ir_bump(N ? N : 1);
+#if MODE == 4
+  ir_bytewin_base = buf;
+  /* a VALID text: the characters selected by SYMMASK are arbitrary characters of the format's alphabet (symbolic), the others are the given text */
+  { static const char text[] = TEXT;
+    for (int i = 0; i < N; i++) { if ((SYMMASK >> i) & 1) { SYM_AT(in_byte, i); ASSUME(ref_val(in_byte[i]) >= 0); } else in_byte[i] = (u8)text[i]; IR_ST8(buf + i, in_byte[i]); } }
+#else
   for (int i = 0; i < N; i++) { SYM_AT(in_byte, i); IR_ST8(buf + i, in_byte[i]); }
+#endif
   u64 none = IR_LD64(G__dispatch_data_destructor_none);
 #if SPLIT == 0
   return dispatch_data_create(buf, N, 0, none);
@@ -112,6 +123,17 @@ void harness(void) {
     ASSERT(nout == N, "ENCODE: the text carries exactly the input bytes");
     for (int i = 0; i < N; i++) ASSERT(dec[i] == in_byte[i], "ROUNDTRIP: the reference decoder recovers the original bytes from the real encoder's text, independent of how the input was fragmented"); }
   WITNESS_REACHED("encoding checked");
+#elif MODE == 4
+  /* DECV: the real decoder on a VALID text (whole groups, RFC 4648 padding), some characters symbolic over the whole alphabet, the text optionally split into two regions:
+     the decoder accepts it and returns exactly the bytes the reference decoder computes.  With MODE 2 (real encoder = inverse of the reference decoder) this is the round trip. */
+  u64 r = dispatch_data_create_with_transform(d, FMT_T, G__dispatch_data_format_type_none);
+  _Bool good = r != 0;
+  { u64 acc = 0; int nbits = 0, nout = 0, npad = 0; u8 dec[N + 1];
+    static const char text[] = TEXT;
+    for (int i = 0; i < N; i++) { u8 c = in_byte[i]; _Bool pad = ((SYMMASK >> i) & 1) ? 0 : (text[i] == '='); /* concrete: symbolic positions are alphabet characters */ npad += pad; if (!pad) { acc = (acc << BITS) | (u64)(ref_val(c) & 63); nbits += BITS; if (nbits >= 8) { nbits -= 8; dec[nout] = (u8)(acc >> nbits); nout++; } } }
+    if (good) { good = dispatch_data_get_size(r) == (u64)nout; if (nout) { observe(r); good = good & out_ok & (out_n == (u64)nout); for (int i = 0; i < N; i++) if (i < nout) good = good & (out[i] == dec[i]); } } }
+  ASSERT(good, "ROUNDTRIP: the decoder accepts every valid text of its format and returns exactly the encoded bytes, independent of how the text is fragmented into regions");
+  WITNESS_REACHED("a valid text was decoded");
 #elif MODE == 3
   /* UTF: well-formed UTF-8 -> UTF-16 (FMT 3 little, 4 big endian) -> UTF-8, with the input split after SPLIT bytes and the UTF-16 text re-fragmented after SPLIT2 bytes
      (the text starts with a 2-byte byte-order mark: SPLIT2 = 4 with a 4-byte input character is the boundary between the two surrogates, odd SPLIT2 cuts a code unit).
